@@ -899,7 +899,8 @@ def gen_plateau_locus(src, with_annotation=True, chrom="chr1"):
             "hidden_genes": [] if with_annotation else genes}
 
 
-def gen_long_gene_locus(src, with_annotation=True, chrom="chr1", straddle=False, x_annotated=True, n_cross=1):
+def gen_long_gene_locus(src, with_annotation=True, chrom="chr1", straddle=False, x_annotated=True, n_cross=1,
+                        tail_only=False):
     """A sparsely covered gene longer than two splitting windows: 3-5 exons separated by introns of 130-170 bins
     (33-43 kb), 1-3 full-length reads that are therefore processed in >= 3 regions and assigned to the same isoform in
     each of them, short reads on single exons, optionally a pile-up on the first exon (so that depth 2-3 is still a
@@ -915,7 +916,11 @@ def gen_long_gene_locus(src, with_annotation=True, chrom="chr1", straddle=False,
     strand = src.choice(["+", "-"])
     genes = [{"id": "L0", "chr": chrom, "strand": strand, "canon": "canon",
               "transcripts": [{"id": "LT0", "exons": chain}]}]
-    if src.bool(0.5):
+    if tail_only:
+        # only the last two exons are annotated: the long reads are a novel isoform of a gene that lies wholly in
+        # the last processing region while they start in the first one
+        genes[0]["transcripts"][0]["exons"] = [list(e) for e in chain[-2:]]
+    elif src.bool(0.5):
         # an annotated isoform without one inner exon
         j = src.int(1, n_ex - 2)
         genes[0]["transcripts"].append({"id": "LT1", "exons": chain[:j] + chain[j + 1:]})
@@ -925,6 +930,8 @@ def gen_long_gene_locus(src, with_annotation=True, chrom="chr1", straddle=False,
     hidden_x = []
     pile = True if straddle else src.bool(0.5)
     n_long = 1 if straddle else (src.int(1, 3) if pile else 1)
+    if tail_only:
+        pile, n_long = True, 3
     for _ in range(n_long):
         k += 1
         blocks = [list(b) for b in chain]
